@@ -10,5 +10,6 @@ cp /verif/evidence/$PROP.json /tmp/evidence_$PROP.json.bak 2>/dev/null
 git apply "$P"
 ( cd /verif && timeout 3000 ./check.py $PROP --tier $TIER 2>&1 | tail -3 )
 git checkout -- .
+( cd /verif && python3 gen/gen.py >/dev/null 2>&1 )   # the generated Lean files must describe the unchanged tree again
 cp /tmp/evidence_$PROP.json.bak /verif/evidence/$PROP.json 2>/dev/null; rm -f /tmp/evidence_$PROP.json.bak
 git status --short | head -3
